@@ -717,7 +717,7 @@ theorem accept_refines {r : RecvWindow} {rs : Spec.Reasm} {n : Nat} {h : Hdr} {p
         · rw [ecnt, hrep.cnt]; have := hrep.nLe; omega
         · rw [erem]; exact hr0
         · rw [ebuf, hb, drop_snoc _ _ _ hrep.nLe, flat_append, flat_single]
-          simp only [h1, if_true, recBytes, List.length_append, hrp]
+          simp only [if_true, recBytes, List.length_append, hrp]
           simp [hpl]
         · intro m hm
           rcases List.mem_append.mp hm with hm | hm
